@@ -7,8 +7,21 @@ Open Scope Qc_scope.
 Record c02_case := {
   c2_sys : system; c2_ue : usys; c2_chs : list bool (* species-major *);
   c2_laws : list (list Z);          (* integer combinations of species offered by the harness *)
-  c2_exact : bool                   (* stochastic engines: totals must be exactly equal *)
+  c2_exact : bool;                  (* stochastic engines: totals must be exactly equal, in molecules *)
+  c2_du : usys                      (* units the samples are reported in *)
 }.
+
+(* stochastic engines compute in molecules; the samples come back in the script's amount unit. A
+   reported value is read back as the integer number of molecules it denotes (it must denote one,
+   to 1e-6), and the totals of those integers are compared exactly. *)
+Definition to_molecules (du ue : usys) (v : Qc) : option Qc :=
+  let m := v * factor du ue dim_amount in
+  let r := QcZ (Qcfloor (m + Qcfrac 1 2)) in
+  if Qcleb (Qcabs (m - r)) (p10 (-6) * (1 + Qcabs m)) then Some r else None.
+Definition sample_molecules (du ue : usys) (x : list Qc) : option (list Qc) :=
+  fold_right (fun v acc => match to_molecules du ue v, acc with Some r, Some l => Some (r :: l) | _, _ => None end) (Some []) x.
+Definition all_some {A} (l : list (option A)) : option (list A) :=
+  fold_right (fun o acc => match o, acc with Some a, Some l => Some (a :: l) | _, _ => None end) (Some []) l.
 
 Definition conservedb (T : etab) (c : list Z) : bool :=
   forallb (fun r => Z.eqb (fold_right Z.add 0%Z (map (fun s => (nth s c 0 * Sto T s r)%Z) (species_idx T))) 0)
@@ -28,8 +41,9 @@ Definition accept_C02 (c : c02_case) (samples : list (list Qc)) : verdict :=
   let ns := nS T in let nc := nC T in
   let ok_laws := forallb (fun l => Nat.eqb (length l) ns && conservedb T l && unchemostatedb T l) (c2_laws c) in
   let ok_shape := forallb (fun x => Nat.eqb (length x) (ns * nc)) samples in
+  let samples' := if c2_exact c then all_some (map (sample_molecules (c2_du c) (c2_ue c)) samples) else Some samples in
   let ok_tot :=
-    match samples with
+    match samples' with None => false | Some samples => match samples with
     | [] => true
     | x0 :: rest =>
         forallb (fun l =>
@@ -37,7 +51,7 @@ Definition accept_C02 (c : c02_case) (samples : list (list Qc)) : verdict :=
           forallb (fun x => if c2_exact c then Qceqb (total_sm ns nc l x) t0
                             else close_mag eps9 (total_mag ns nc l x + total_mag ns nc l x0) t0 (total_sm ns nc l x)) rest)
           (c2_laws c)
-    end in
+    end end in
   (ok_laws && ok_shape && ok_tot,
    (1 + (if ok_laws then 0 else 1) + (if ok_shape then 0 else 2) + (if ok_tot then 0 else 4)
     + (if match c2_laws c with [] => true | _ => false end then 8 else 0))%nat).
